@@ -349,7 +349,7 @@ class Headers(Mapping):
 
         Duplicate names are not allowed instead of ``Set-Cookie``.
         """
-        if name != "Set-Cookie" and name in self:
+        if name.lower() != "set-cookie" and name in self:
             raise KeyError("Key %s exist." % name)
         self.add_header(name, value)
 
